@@ -47,6 +47,23 @@ Section Basis.
   (* generate_basis: the cell's, then each site's in order (sites given by their degrees of freedom) *)
   Definition generate_basis (f : family) (length_ ratio_ : T) (sites : list (list bool)) : list decl :=
     cell_dof f length_ ratio_ ++ flat_map (fun dof => site_basis dof 1%N) sites.
+
+  (* ---- the state a group and a shape start from (initialise / from_family / from_wyckoff) *)
+  Definition initial_length_packed (radius : T) (num_shapes : N) : T := (nofZ 4 * radius) * nofZ (Z.of_N num_shapes).
+  Definition initial_length_potential (radius : T) (num_shapes : N) : T := (nofZ 2 * radius) * nofZ (Z.of_N num_shapes).
+  Definition initial_angle (f : family) : T := match f with Hexagonal => pi_ / nofZ 3 | _ => pi_ / nofZ 2 end.
+  Definition initial_ratio : T := n1.
+  Definition initial_site (multiplicity : N) : T * T * T :=
+    let position := (- (nofZ 1 / nofZ 2)) + ((nofZ 1 / nofZ 2) / nofZ (Z.of_N multiplicity)) in (position, position, n0).
+
+  (* the values the handles of generate_basis point at, in its order, for sites of the given multiplicities *)
+  Definition initial_values (f : family) (len : T) (mults : list N) : list T :=
+    (len :: match f with
+            | Monoclinic => [initial_ratio; initial_angle f]
+            | Orthorhombic => [initial_ratio]
+            | _ => []
+            end)
+    ++ flat_map (fun m => let '(x, y, a) := initial_site m in [x; y; a]) mults.
 End Basis.
 
 Arguments mkDecl {_}.
